@@ -18,7 +18,7 @@ TRUSTED = ['cbmc 6.11.0 C++ front end and SAT back end',
            'range-for / auto / delete / io::stdout rewrite rules (must-fire)']
 ASSUMPTIONS = ['the comparator\'s tie-break on object addresses is replaced by a tie-break on ghost object ids (must-fire rule): any total order on distinct objects is a valid implementation choice',
                'histories: <= 3 reservations + optional slice + releases, then one operation (bounded); request sizes < 2^10 (quick) / 2^12 (thorough)',
-               'alignments enumerated: quick {128 -> 8, 8 -> 128}; thorough adds {8 -> 24, 1, 24, 4096}',
+               'alignments enumerated: quick C03 {128 -> 8}, C04 {8 -> 128}; thorough {128->8, 8->128, 8->24, 1->128, 24->8, 4096->128} for both',
                'virtual calls resolve to the Serial-mode pool']
 NOT_REACHED = ['memoryPool handle layer (one-line forwarders, covered for assertInitialized by C01 family step)',
                'longer histories, more than 4 live reservations', 'byte contents beyond one tracked byte per run (any byte: it is symbolic)']
@@ -29,7 +29,12 @@ def build(ctx, prop=None, only_ops=None, only_aligns=None):
     others = '|'.join(x for x in ('C03', 'C04', 'C05') if x != prop)
     unit, fns = poolunit.build_unit(ctx)
     src = unit + poolunit.HARNESS
-    aligns = [(128, 8), (8, 128)] if ctx.tier == 'quick' else [(128, 8), (8, 128), (8, 24), (1, 128), (24, 8), (4096, 128)]
+    # quick: one alignment pair per property (C03: 128 -> 8, C04: 8 -> 128) to keep the every-change run short;
+    # thorough: every pair for both
+    if ctx.tier == 'quick':
+        aligns = [(8, 128)] if prop == 'C04' else [(128, 8)]
+    else:
+        aligns = [(128, 8), (8, 128), (8, 24), (1, 128), (24, 8), (4096, 128)]
     bits = 10 if ctx.tier == 'quick' else 12
     opn = ['reserve', 'resize', 'shrinkToFit', 'setAlignment', 'release', 'slice']
     groups = []
